@@ -3,7 +3,7 @@
    if the boolean check `lv_sound` passes (it is evaluated on every generated program of every run)
    then for EVERY execution of the function: whenever x is read at node k -- by the node itself or
    by a local function whose definition reaches k (nl = true: also when that function declares x
-   nonlocal) -- and no node instance strictly between s and k rebinds or deletes x, then x is in the
+   nonlocal; lam = true: also by a lambda expression evaluated earlier) -- and no node instance strictly between s and k rebinds or deletes x, then x is in the
    reported live-out set of s and in the reported live-in set of the node executed right after s.
    Guard `~ exhausted` = known finding for-target-killed-on-exit-edge (see liveness_for_header_refuted.v). *)
 From Coq Require Import List Arith Bool.
@@ -11,12 +11,12 @@ Import ListNotations.
 Require Import MV.Cfg.Skel MV.Cfg.SkelCheck MV.Cfg.SkelProofs.
 Require Import MV.Flow.SetExpr MV.Flow.MayAnalysis MV.Flow.Dataflow MV.Flow.DataflowProofs.
 
-Theorem liveness_sound_events : forall (E : list edge) (ns : list lnode) (nl : bool) (f : fn),
-  incl_edges (cfg_fn f) E = true -> lv_sound E ns nl (reach_bwd E) = true ->
+Theorem liveness_sound_events : forall (E : list edge) (ns : list lnode) (nl lam : bool) (f : fn),
+  incl_edges (cfg_fn f) E = true -> lv_sound E ns nl lam (reach_bwd E) = true ->
   forall n d tr o d', exec_fn n f d = (tr, o, d') -> o <> OFuel -> top_ok f = true -> guard_block (f_body f) = true ->
   normal_end o ->
   forall pre s mid k post x, tr = pre ++ s :: mid ++ k :: post ->
-    lgen ns nl k x ->
+    lgen ns nl lam k x ->
     (forall m nx, In (m, nx) (steps mid k) -> ~ dynw name (find_node ns) m nx x) ->
     (forall m nx, In (m, nx) (steps mid k) -> ~ exhausted name (find_node ns) m nx x) ->
     memn x (n_out (find_node ns s)) = true /\ memn x (n_in (find_node ns (hd k mid))) = true.
